@@ -24,7 +24,7 @@ func chanOpsIn(w *core.World, f *core.FuncInfo) []chanOp {
 	var out []chanOp
 	info := f.Info()
 	var stack []ast.Node
-	ast.Inspect(f.Body(), func(x ast.Node) bool {
+	core.InspectBody(f, func(x ast.Node) bool {
 		if x == nil {
 			stack = stack[:len(stack)-1]
 			return true
@@ -172,7 +172,7 @@ func init() {
 					}
 					for _, f := range r.W.AllFuncs(pkg) {
 						has := false
-						ast.Inspect(f.Body(), func(x ast.Node) bool {
+						core.InspectBody(f, func(x ast.Node) bool {
 							if call, ok := x.(*ast.CallExpr); ok && core.Names(free...).Has(core.Callee(f.Info(), call)) {
 								has = true
 							}
@@ -220,7 +220,7 @@ func init() {
 						fl := core.RunFlow(b, &core.FlowSpec{})
 						_ = fl
 						var stack []ast.Node
-						ast.Inspect(b.Body(), func(x ast.Node) bool {
+						core.InspectBody(b, func(x ast.Node) bool {
 							if x == nil {
 								stack = stack[:len(stack)-1]
 								return true
@@ -251,7 +251,7 @@ func init() {
 								root = root.Encl
 							}
 							hasLock, hasFlagTest := false, false
-							ast.Inspect(root.Body(), func(y ast.Node) bool {
+							core.InspectBody(root, func(y ast.Node) bool {
 								switch s := y.(type) {
 								case *ast.CallExpr:
 									if nm := core.ShortName(core.Callee(root.Info(), s)); nm == "sync.(*Mutex).Lock" || nm == "sync.(*RWMutex).Lock" {
